@@ -350,6 +350,11 @@ var interludes = []string{
 	"(def zz1 5) #' (def zzAfter 7)",       //
 	"(def zz1 5) ~ ) (def zzAfter 7)",      // reader prefix before a closer
 	"(def zz1 5) \\ (def zzAfter 7)",       // stray backslash
+	// a compile error INSIDE a loop (the generator's loop stack must be unwound), also nested and inside a function
+	"(def zz1 5) (for [(def i 0) (< i 2) (set i (+ i 1))] (let [q] 1))",
+	"(def zz1 5) (for [(def i 0) (< i 2) (set i (+ i 1))] (for [(def j 0) (< j 2) (set j (+ j 1))] (fn)))",
+	"(def zz1 5) (defn zzf [] (for [(def i 0) (< i 2) (set i (+ i 1))] (and 1 (fn))))",
+	"(def zz1 5) (for [(def i 0) (< i 2) (set i (+ i 1))] (break nosuchlabel:))",
 	// a failed REdefinition of a name the program may have bound: the old binding must stay
 	"(defn f [a] (let [q] 1))",
 	"(def x (fn))",
